@@ -881,12 +881,29 @@ func (k keyCtx) norm(x ast.Expr) linForm {
 		// the function never writes count as call-free: they are the length)
 		if obj, ok := k.e.info.Uses[b].(*types.Var); ok && !obj.IsField() {
 			if as := k.e.assigns[obj]; len(as) == 1 {
-				if a, ok := as[0].(*ast.AssignStmt); ok && len(a.Lhs) == 1 && len(a.Rhs) == 1 && a.Tok == token.DEFINE && (callFree(a.Rhs[0]) || k.e.onlyLenGetterCalls(a.Rhs[0])) && isIntType(obj.Type()) {
+				if a, ok := as[0].(*ast.AssignStmt); ok && len(a.Lhs) == 1 && len(a.Rhs) == 1 && a.Tok == token.DEFINE && (callFree(a.Rhs[0]) || k.e.onlyLenGetterCalls(a.Rhs[0]) || k.e.onlyStringLens(a.Rhs[0])) && isIntType(obj.Type()) {
 					return k.norm(a.Rhs[0])
 				}
 			}
 		}
 	case *ast.CallExpr:
+		// len of a string-valued expression; a trimmed string is no longer than the string it was cut from
+		if isBuiltin(k.e.info, b, "len") && len(b.Args) == 1 {
+			if bt, ok := k.e.info.TypeOf(b.Args[0]).Underlying().(*types.Basic); ok && bt.Info()&types.IsString != 0 {
+				term := "len(" + k.key(b.Args[0]) + ")"
+				if inner, ok := unparen(b.Args[0]).(*ast.CallExpr); ok && len(inner.Args) >= 1 {
+					if callee := calleeOf(k.e.info, inner); callee != nil && callee.Pkg() != nil && callee.Pkg().Path() == "strings" && strings.HasPrefix(callee.Name(), "Trim") {
+						if st, ok := k.e.info.TypeOf(inner.Args[0]).Underlying().(*types.Basic); ok && st.Info()&types.IsString != 0 {
+							whole := "len(" + k.key(inner.Args[0]) + ")"
+							liaAxioms = append(liaAxioms,
+								leForms(linForm{terms: map[string]int64{term: 1}}, linForm{terms: map[string]int64{whole: 1}}),
+								leForms(constForm(0), linForm{terms: map[string]int64{term: 1}}))
+						}
+					}
+				}
+				return linForm{terms: map[string]int64{term: 1}}
+			}
+		}
 		if recv, deref, ok := k.e.lenGetter(b); ok {
 			var arg ast.Expr = recv
 			if deref {
@@ -995,6 +1012,50 @@ func (e *entFn) lenGetter(call *ast.CallExpr) (ast.Expr, bool, bool) {
 		return nil, false, false
 	}
 	return rid, deref, true
+}
+
+// liaAxioms: facts about the terms met while normalising (reset by liaBounds)
+var liaAxioms []ineq
+
+// onlyStringLens: every call in x is len(S) of a string-valued S made of variables and strings.Trim* calls (strings are
+// immutable values: the length read at the definition is the length at the use, for a variable assigned once)
+func (e *entFn) onlyStringLens(x ast.Expr) bool {
+	ok := true
+	var pureStr func(s ast.Expr) bool
+	pureStr = func(s ast.Expr) bool {
+		s = unparen(s)
+		bt, isB := e.info.TypeOf(s).Underlying().(*types.Basic)
+		if !isB || bt.Info()&types.IsString == 0 {
+			return false
+		}
+		switch q := s.(type) {
+		case *ast.Ident:
+			if v, isVar := e.info.Uses[q].(*types.Var); isVar && !v.IsField() {
+				return len(e.assigns[v]) <= 1 && !e.addrOf[v]
+			}
+			return false
+		case *ast.CallExpr:
+			callee := calleeOf(e.info, q)
+			if callee == nil || callee.Pkg() == nil || callee.Pkg().Path() != "strings" || !strings.HasPrefix(callee.Name(), "Trim") || len(q.Args) < 1 {
+				return false
+			}
+			return pureStr(q.Args[0])
+		}
+		return false
+	}
+	ast.Inspect(x, func(n ast.Node) bool {
+		switch q := n.(type) {
+		case *ast.FuncLit:
+			ok = false
+		case *ast.CallExpr:
+			if !isBuiltin(e.info, q, "len") || len(q.Args) != 1 || !pureStr(q.Args[0]) {
+				ok = false
+			}
+			return false
+		}
+		return ok
+	})
+	return ok
 }
 
 func (e *entFn) onlyLenGetterCalls(x ast.Expr) bool {
